@@ -45,8 +45,15 @@ def write_inputs(rng, fmt, work):
     ext = float(np.max(np.abs(base["p"] - base["p"].mean(axis=0)))) + 1e-3
     dt = float(np.median(np.diff(base["t"])))
 
+    flags = {"full": False}
+
     def variant(i, is_ref=False):
-        if fmt == "kitti":
+        if fmt != "kitti" and not is_ref and rng.random() < .08:
+            flags["full"] = True  # this trajectory and the reference have a pose for every base stamp
+        if fmt != "kitti" and flags["full"]:
+            idx = np.arange(n_base)
+            t = base["t"][idx] + (i + 1) * 1e-6 * dt * (1 + rng.random(len(idx)))
+        elif fmt == "kitti":
             idx = np.arange(n_base)
             t = base["t"]
         elif not is_ref and rng.random() < .25 and n_base >= 8:
@@ -74,7 +81,15 @@ def write_inputs(rng, fmt, work):
             s = 10.0**rng.uniform(-0.4, 0.4)
             p = (A[:3, :3] @ p.T).T / s + A[:3, 3]
             R = np.array([A[:3, :3] @ Rk for Rk in R])
-        return {"p": p, "R": R, "t": np.array(t)}
+        out = {"p": p, "R": R, "t": np.array(t)}
+        if fmt != "kitti" and not is_ref and len(idx) >= 3 and rng.random() < (.5 if flags["full"] else .1):
+            # lines out of chronological order (late messages appended at the end of a log)
+            k = int(rng.integers(1, len(idx)))
+            order = np.concatenate([np.arange(k, len(idx)), np.arange(k)]) if rng.random() < .5 else \
+                np.concatenate([[len(idx) - 1], np.arange(len(idx) - 1)])
+            out = {kk: v[order] for kk, v in out.items()}
+            flags["unsorted"] = True
+        return out
 
     def dump(arr, name, this_fmt):
         path = os.path.join(work, "in", name)
@@ -102,7 +117,7 @@ def write_inputs(rng, fmt, work):
     ref = None
     if rng.random() < .7:
         ref = dump(variant(7, is_ref=True), ("gt.v1.2" if dotted else "gt") + ext_name, fmt)
-    return trajs, ref, {"ext": ext, "dt": dt, "n_base": n_base}
+    return trajs, ref, {"ext": ext, "dt": dt, "n_base": n_base, "unsorted": bool(flags.get("unsorted"))}
 
 
 def write_transform(rng, work, sim_ok, ext):
@@ -350,6 +365,11 @@ def traj_cli(run, case, rng, work):
     argv_o, o = draw_options(rng, fmt, trajs, ref, meta, work, force=case.get("force"))
     export = case.get("export") or (["tum", "kitti", "both"][rng.integers(3)] if fmt != "kitti" else
                                     ["kitti", "kitti", "tum"][rng.integers(3)])
+    if meta["unsorted"]:
+        # statistics that need speeds are refused by design for stamps that are not ascending
+        # (TrajectoryException "bad timestamps"): those output-only options are left out here
+        argv_o = [a for i, a in enumerate(argv_o) if a not in ("--full_check", "--save_table")
+                  and not (i and argv_o[i - 1] == "--save_table")]
     argv = [fmt] + [p for (p, sh) in trajs.values()] + argv_o + ["--no_warnings"]
     if export in ("tum", "both"):
         argv.append("--save_as_tum")
